@@ -426,7 +426,7 @@ Proof.
   unfold handle_no_error_eof; mrun; dpr; rewrite Z.ltb_irrefl; cbn [andb]; mrun;
   unfold checksum_verify; mrun; dpr;
   (destruct (ckt =? CK_NULL) eqn:Eck; cbn [orb]; mrun;
-   [| unfold vfs_checksum; mrun; rewrite Eck; mrun; rewrite Hl, Hck; cbv iota; mrun; rewrite bytes_eqb_refl; mrun]);
+   [| unfold vfs_checksum; mrun; rewrite Eck; mrun; rewrite Hl, Hck; cbv iota; mrun; rewrite bytes_eqb_refl; dpr; rewrite Z.leb_refl; cbn [andb]; mrun]);
   unfold file_transfer_complete_transition; mrun;
   unfold handle_transfer_completion, notice_of_completion; mrun; rewrite Hfin; mrun; dpr; mrun;
   unfold reset_internal; mrun; reflexivity.
